@@ -14,6 +14,9 @@ Inductive probe :=
 
 Definition gen := (N * str * N)%type.     (* key id, sealed text, value id (>= 1) *)
 
+(* a Cookie header line is written as pieces: literal bytes, a whole genuine text, or a slice of one *)
+Inductive seg := SLit (s : str) | SGen (i : nat) | SSub (i : nat) (pos len : N).
+
 Inductive case :=
 | CSeal (kind : N) (gs : list gen) (pk : N) (p : probe)
         (obs : option N)     (* Unmarshal under key pk: None = error; Some v = decoded value equals value #v
@@ -21,6 +24,14 @@ Inductive case :=
         (store : N)          (* CookieStore.LoadSession with the string as cookie: 0 = not run,
                                 1 = (nil, ErrInvalidSession), 10+v = (session equal to value #v, nil),
                                 2 = anything else (other error, or a session together with an error) *)
+| CCookie (kind : N) (gs : list gen) (pk : N) (lines : list (list seg))
+          (store : N)        (* CookieStore.LoadSession on a request whose Cookie header lines are [lines]
+                                (cookie name "_sso_proxy"): 1 = (nil, ErrInvalidSession), 3 = (nil, http.ErrNoCookie),
+                                10+v = (session equal to value #v, nil), 2 = anything else *)
+| CFresh (kind n dstrings dpairs : N) (mindist : option N) (all_rt : bool)
+   (* ONE cipher instance sealed n times (one value, or 2-3 values in turn): number of distinct strings,
+      number of distinct (value, nonce) pairs read off the decoded strings, smallest distance between two
+      equal strings, whether every string opened to its value *)
 | CEnc (b : str) (obs_enc : str) (obs_dec : option str)   (* Go: EncodeToString b, DecodeString of that *)
 | CDec (strict nocrlf : bool) (s : str) (obs : option str).
    (* Go: RawURLEncoding[.Strict()].DecodeString s, preceded by the CR/LF rejection when nocrlf *)
@@ -79,6 +90,17 @@ Definition presented (gs : list gen) (p : probe) : str :=
   | PGen i => text_of (nth_error gs i)
   end.
 
+Definition render_seg (gs : list gen) (sg : seg) : str :=
+  match sg with
+  | SLit s => s
+  | SGen i => text_of (nth_error gs i)
+  | SSub i pos len => firstn (N.to_nat len) (skipn (N.to_nat pos) (text_of (nth_error gs i)))
+  end.
+Definition render_lines (gs : list gen) (lines : list (list seg)) : list str :=
+  map (fun l => flat_map (render_seg gs) l) lines.
+
+Definition cookie_name : str := [95; 115; 115; 111; 95; 112; 114; 111; 120; 121].   (* "_sso_proxy" *)
+
 Definition judge_seal (m : dec_mode) (gs : list gen) (pk : N) (p : probe) (obs : option N) (store : N) : N :=
   let s := presented gs p in
   let mo := model_unmarshal m gs pk s in
@@ -95,9 +117,32 @@ Definition judge_seal (m : dec_mode) (gs : list gen) (pk : N) (p : probe) (obs :
     end in
   code mismatch holds known.
 
+(* the cookie path. The property is stated on the cookie VALUE net/http delivers (the library's cookie
+   syntax, Aead.cookie_lookup, compared as part of the model): no cookie of the name -> ErrNoCookie and no
+   session; otherwise a session exactly when that value IS a genuine sealed string of the store's key. *)
+Definition obs_of_store (store : N) : option (option N) :=
+  if store =? 1 then Some None else if 10 <=? store then Some (Some (store - 10)) else None.
+
+Definition judge_cookie (m : dec_mode) (gs : list gen) (pk : N) (lines : list str) (store : N) : N :=
+  match cookie_lookup cookie_name lines with
+  | None => code (negb (store =? 3) || negb (forallb genuine_ok gs)) (store =? 3) 0
+  | Some cv => match obs_of_store store with
+               | None => 3
+               | Some obs => judge_seal m gs pk (PWhole cv) obs store
+               end
+  end.
+
+(* long runs: the model (C02_marshal_inj) says two sealed strings are equal iff key, nonce and value are,
+   and that every one opens; the property says all n strings are different *)
+Definition judge_fresh (n dstrings dpairs : N) (mindist : option N) (all_rt : bool) : N :=
+  code (negb (dstrings =? dpairs) || negb all_rt)
+       ((dstrings =? n) && (match mindist with None => true | Some _ => false end) && all_rt) 0.
+
 Definition judge (c : case) : N :=
   match c with
   | CSeal _ gs pk p obs store => judge_seal repo_mode gs pk p obs store
+  | CCookie _ gs pk lines store => judge_cookie repo_mode gs pk (render_lines gs lines) store
+  | CFresh _ n ds dp md rt => judge_fresh n ds dp md rt
   | CEnc b obs_enc obs_dec =>
       code (negb (str_eqb (b64url_encode b) obs_enc)
             || negb (option_eqb str_eqb (go_b64url_decode false obs_enc) obs_dec))
@@ -122,6 +167,15 @@ Definition classify (c : case) : N :=
                    | Some _, None => 4
                    | _, _ => stage repo_mode gs pk s
                    end)
+  | CCookie kind gs pk lines store =>
+      kind * 10 + (match cookie_lookup cookie_name (render_lines gs lines) with
+                   | None => 5
+                   | Some cv => match spec_lookup gs pk cv with
+                                | Some _ => 3
+                                | None => if 10 <=? store then 4 else stage repo_mode gs pk cv
+                                end
+                   end)
+  | CFresh kind _ _ _ _ _ => 990 + kind
   | CEnc b _ _ => 900 + N.of_nat (length b) mod 3
   | CDec strict nocrlf s obs =>
       950 + (match obs with Some _ => 1 | None => 0 end) + (if strict then 2 else 0) + (if nocrlf then 4 else 0)
